@@ -128,7 +128,7 @@ def check(tier: str) -> Result:
     res.add("C06.R4", site, fn, "the chosen colour is written at the current node only", ok, txt(nv, 4, 120))
     from .common import borrow
     TRUSTS_MASK = ["BinPack", "FlatPack", "JobShop", "Sudoku", "GraphColoring"]   # CO environments whose step consults the stored mask
-    n_b = borrow(res, "c04", {"C04.R1": "C06.R5", "C04.R3a": "C06.R5", "C04.R7": "C06.R5", "C04.R6": "C06.R5"}, envs=TRUSTS_MASK)
+    n_b = borrow(res, "c04", {"C04.R1": "C06.R5", "C04.R3a": "C06.R5", "C04.R7": "C06.R5", "C04.R6": "C06.R5", "C04.R2": "C06.R5", "C04.R9": "C06.R5"}, envs=TRUSTS_MASK)
     # ---- R6: Connector / MMST routes never share a cell already at reset: starts and targets are drawn without replacement
     n_gen = borrow(res, "c10", {"C10.R2": "C06.R6"}, envs=["connector", "mmst"])
     # ---- R7: used-once flags (packed / visited / placed) are decisive in the mask (rules/used_rules.py)
